@@ -1555,8 +1555,18 @@ func sendMessages(ctx context.Context, conn net.Conn,
 
 	select {
 	case <-handshakeComplete:
+	case <-interrupt:
+		return firstMsg, nil
 	case <-time.After(timeout):
 		return firstMsg, errors.Wrap(ErrTimeout, "handshake")
+	}
+
+	// The connection wakes this routine through the handshake channel when it shuts down. The
+	// handshake is not complete in that case and nothing queued may be written.
+	select {
+	case <-interrupt:
+		return firstMsg, nil
+	default:
 	}
 
 	if firstMsg != nil {
